@@ -38,6 +38,9 @@ def draw_open(rng, prof, sh, first=False, ro=False):
     chk = rec = 0
     if not first and rng.random() < prof.get('p_checkrecover', 0.4) and (mono or not times):
         chk, rec = rng.choice([(1, 0), (0, 1), (1, 1)])
+    if getattr(sh, 'force_recover', False):
+        ro, chk, rec = False, 0, 1
+        sh.force_recover = False
     ver = rng.choice(prof.get('versions', [2]))
     keeprw = rng.choice([0, 1]) if len(prof.get('versions', [2])) > 1 else 0
     eager = 1 if (len(prof.get('versions', [2])) > 1 and rng.random() < 0.25 and not ro) else 0
@@ -271,6 +274,12 @@ def between_sessions(rng, prof, sh, note):
             note('migrate_twice')
     if rng.random() < prof.get('p_recoverdir', 0.1) and (prof.get('time_mode', 'mono') != 'rand' or not prof['times']):
         ops.append('recoverdir')
+    if rng.random() < prof.get('p_idxcut', 0.0):
+        # what a crash that loses the tail of the newest index file at an item boundary leaves; the next Open is a
+        # read-write Open with Recover, which must bring the index back to what the log file says
+        ops.append('idxcut %d' % rng.choice([1, 1, 2, 5]))
+        sh.force_recover = True
+        note('idxcut')
     return ops
 
 
